@@ -69,3 +69,13 @@ package check
 //@ commute opens_commute [C05]: (*Checker).open shared ch
 //@ commute balances_commute [C05]: (*Checker).balance shared ch
 //@ commute closes_commute [C05]: (*Checker).close shared ch
+//
+// Check (the constructor): the checker starts from the empty state - no account open, no quantity
+// tracked - and all four lifecycle callbacks are wired into the processor (a missing one would silently
+// switch that part of the check off); the assertion collector runs only with --write.
+//@ func (*Checker).Check
+//@   requires ch != nil
+//@   modifies ch.quantities, ch.accounts, ch.assertions
+//@   ensures [C04] @fresh: wfChecker(ch) && fresh(ch.quantities) && fresh(ch.accounts) && len(ch.quantities) == 0 && len(ch.accounts) == 0 && len(ch.assertions) == 0
+//@   ensures [C04] @wired: result != nil && fresh(result) && result.Open != nil && result.Posting != nil && result.Balance != nil && result.Close != nil
+//@        && result.DayStart == nil && result.Price == nil && result.Transaction == nil && result.Assertion == nil && (result.DayEnd != nil <==> ch.Write)
